@@ -38,6 +38,8 @@ structure DSt where
   present : List String := []              -- implementation: lock files in the backend (from ok saves/removes)
   own : List (String × Nat) := []          -- implementation: which process saved which lock file
   loaded : List (Nat × String) := []       -- implementation: which process has read which lock file successfully
+  lastList : List (Nat × List String) := [] -- implementation: what each process's latest successful List returned
+  oldLock : List (Nat × String) := []      -- implementation: the lock an expired holder had when its forced refresh started
   modelErr : Option Verdict := none        -- first step of the trace the model does not allow (replay stops there)
   labels : List String := []
   nacq : Nat := 0
@@ -87,7 +89,10 @@ def implTrack (st : DSt) (r : Array String) : Except Verdict DSt :=
   match r.getD 0 "" with
   | "ev" =>
     let op := r.getD 3 ""; let name := r.getD 4 "-"; let ok := r.getD 5 "0" == "1"
-    if op == "load" && ok then .ok { st with loaded := (i, name) :: st.loaded }
+    if op == "list" && ok then
+      let listed := if r.getD 6 "-" == "-" then [] else (r.getD 6 "-").splitOn ","
+      .ok { st with lastList := (i, listed) :: st.lastList.filter (·.1 != i) }
+    else if op == "load" && ok then .ok { st with loaded := (i, name) :: st.loaded }
     else if op == "load" then .ok (st.label "lock-unreadable")
     else if op == "save" && ok then .ok { st with present := name :: st.present, own := (name, i) :: st.own }
     else if op == "remove" && ok then
@@ -108,7 +113,14 @@ def implTrack (st : DSt) (r : Array String) : Except Verdict DSt :=
     match r.getD 3 "" with
     | "acq" => .ok ({ st with holders := (i, excl) :: st.holders, acq := st.acq.set! i true, nacq := st.nacq + 1 }.label (if excl then "acq-excl" else "acq-shared"))
     | "rel" | "crash" | "lost" => .ok { st with holders := st.holders.filter (·.1 != i) }
-    | "sr-ok" => .ok ({ st with holders := (i, excl) :: st.holders, acq := st.acq.set! i true, nacq := st.nacq + 1 }.label "forced-refresh-ok")
+    | "sr-ok" =>
+      -- removed_lock_detected on the implementation's own observations: the forced refresh may only
+      -- succeed if the holder's old lock file was still listed at its (second) existence check
+      let old := (st.oldLock.find? (·.1 == i)).map (·.2)
+      let listed := ((st.lastList.find? (·.1 == i)).map (·.2)).getD []
+      if (match old with | some o => !listed.contains o | none => false) then
+        .error (.specfalse "C12:forced-refresh-succeeded-after-lock-removed" s!"process {i} resumed after its forced refresh although its lock {old.getD "?"} was not among the lock files of its last existence check {listed}")
+      else .ok ({ st with holders := (i, excl) :: st.holders, acq := st.acq.set! i true, nacq := st.nacq + 1 }.label "forced-refresh-ok")
     | "remover-done" => if st.kinds0.getD i "" == "remlocker" then .ok { st with kinds := st.kinds.set! i "locker" } else .ok st
     | _ => .ok st
   | _ => .ok st
@@ -135,6 +147,8 @@ def handleEv (st : DSt) (r : Array String) : Except Verdict DSt := do
     | .created => if ok && clear then (match act st i .check2ok with | some s => .ok s | none => .error (.differ "check2ok" "not enabled")) else .ok st
     -- first existence check of refreshStaleLock (the second one decides at the following remove)
     | .stale0 => if ok && (st.sys.procs.getD i default).f1.isSome then (match act st i .srCheck1 with | some s => .ok s | none => .error (.differ "srCheck1" "not enabled")) else .ok st
+    -- second existence check: passes iff the old lock file is still there
+    | .stale2 => if ok && (st.sys.procs.getD i default).f1.isSome then (match act st i .srCheck2 with | some s => .ok s | none => .error (.differ "srCheck2" "not enabled")) else .ok st
     | _ => .ok st
   | "load" | "stat" => .ok st
   | "save" =>
@@ -159,16 +173,23 @@ def handleEv (st : DSt) (r : Array String) : Except Verdict DSt := do
     | none =>
       -- a file that somebody else (the remover) already deleted: the removal fails; for a process that
       -- is giving up this was its unlock
-      if ok then .error (.differ "remove" s!"unknown lock file {name}") else
+      -- a remover whose view has idempotent removes "deletes" a lock its owner removed a moment ago
+      if kind == "remover" && r.getD 6 "-" == "idempotent" then .ok (st.label "remover-removed-vanished-lock") else
+      if pcOf st i == .stale3 then
+        -- adoption after a passed second check; the old file was removed by the remover in between
+        (if ok then
+          (match act st i .srAdopt with
+           | some s => .ok ((setName s i fun nm => (nm.2, none)).label "adopt-old-already-gone-idempotent-remove")
+           | none => .error (.differ "srAdopt" "not enabled"))
+         else
+          (match act st i .srFailKeep with
+           | some s => .ok ((setName s i fun nm => (nm.2, none)).label "adopt-remove-failed")
+           | none => .error (.differ "srFailKeep" "not enabled"))) else
+      if ok && pcOf st i != .stopping then .error (.differ "remove" s!"process {i} removes lock file {name} which is not in the model (adoption without a passed second existence check?)") else
       if pcOf st i == .stopping then
         (match act st i .cleanup with
          | some s => .ok ((setName s i fun _ => (none, none)).label "unlock-of-vanished-lock")
          | none => .error (.differ "cleanup" "not enabled"))
-      else if pcOf st i == .stale2 then
-        -- adoption of the replacement of a forced refresh: the old file is already gone
-        (match act st i .srFailKeep with
-         | some s => .ok ((setName s i fun nm => (nm.2, none)).label "adopt-remove-failed")
-         | none => .error (.differ "srFailKeep" "not enabled"))
       else .ok (st.label "remove-of-vanished-file")
     | some (j, second) =>
       if kind == "remover" then
@@ -204,8 +225,8 @@ def handleEv (st : DSt) (r : Array String) : Except Verdict DSt := do
           match (act st i .giveUp).bind (fun s => act s i .cleanup) with
           | some s => .ok ((setName s i fun _ => (none, none)).label "second-check-failed-after-retry")
           | none => .error (.differ "giveUp" "not enabled")
-        | .stale2 =>
-          -- adoption of the replacement: the old file must still be there
+        | .stale3 =>
+          -- adoption of the replacement (the second existence check has passed)
           if !ok then
             -- lockID already points to the replacement, the old file could not be removed: the forced
             -- refresh fails, the replacement is removed by the following unlock
@@ -214,7 +235,8 @@ def handleEv (st : DSt) (r : Array String) : Except Verdict DSt := do
              | none => .error (.differ "srFailKeep" "not enabled")) else
           match act st i .srAdopt with
           | some s => .ok (setName s i fun nm => (nm.2, none))
-          | none => .error (.differ "srAdopt" s!"process {i} adopts its replacement although its old lock {name} is gone in the model")
+          | none => .error (.differ "srAdopt" "not enabled")
+        | .stale2 => .error (.differ "srAdopt" s!"process {i} adopts its replacement although its old lock {name} was not there at the second existence check")
         | .stopping =>
           match act st i .cleanup with
           | some s => .ok (setName s i fun _ => (none, none))
@@ -286,6 +308,7 @@ def handleC12 (c : Case) : Verdict :=
     excls := procs.map (·.getD 3 "0" == "1"),
     acq := procs.map fun _ => false,
     present := ghosts.toList.map (·.getD 1 "?") ++ (procs.toList.filter (·.getD 2 "" == "expired")).map (·.getD 7 "?"),
+    oldLock := (procs.toList.zipIdx.filter (·.1.getD 2 "" == "expired")).map (fun (r, k) => (k, r.getD 7 "?")),
     own := ghosts.toList.zipIdx.map (fun (r, k) => (r.getD 1 "?", procs.size + k)) ++
       (procs.toList.zipIdx.filter (·.1.getD 2 "" == "expired")).map (fun (r, k) => (r.getD 7 "?", k)),
     nlockers := (procs.filter (·.getD 2 "" == "locker")).size,
